@@ -899,3 +899,22 @@ func CapturedValue(fv *ssa.FreeVar) ssa.Value {
 	}
 	return v
 }
+
+// ReachingStoreAny: the single value ever stored into the cell a by its own function (nil when none or several).
+func ReachingStoreAny(a *ssa.Alloc) ssa.Value {
+	if a.Referrers() == nil {
+		return nil
+	}
+	var v ssa.Value
+	n := 0
+	for _, ref := range *a.Referrers() {
+		if st, ok := ref.(*ssa.Store); ok && st.Addr == ssa.Value(a) {
+			v = st.Val
+			n++
+		}
+	}
+	if n != 1 {
+		return nil
+	}
+	return v
+}
